@@ -6,7 +6,7 @@
                         + #live fidRefs whose parent is r + #live xattr fidRefs borrowing r,
     every counted reference points at an existing fidRef, one table entry per key. *)
 From Coq Require Import List Arith Bool ZArith.
-From P9V Require Import Refs.Model Refs.PathFS Refs.Cases Refs.RefProofs Refs.RefStep Refs.LifeProofs Refs.LifeStep Refs.ErrPaths Refs.Disconnect Refs.Ordered Refs.FenceProofs.
+From P9V Require Import Refs.Model Refs.PathFS Refs.Cases Refs.RefProofs Refs.RefStep Refs.LifeProofs Refs.LifeStep Refs.ErrPaths Refs.Disconnect Refs.Ordered Refs.Ranked Refs.RankedFs Refs.FenceProofs.
 Import ListNotations.
 
 (** C05_inv: for every history of requests from the initial state and every backend, the reference-count
@@ -109,6 +109,52 @@ Theorem C05_disconnect_rename_free : forall B bstep ops (b : B) cs,
   (s_panic B s = false -> forall h, h < s_nexth B s -> close_count h (s_log B s) = 1).
 Proof. exact disconnect_rename_free. Qed.
 Print Assumptions C05_disconnect_rename_free.
+
+(** C05_disconnect for histories WITH renames.
+    (1) Any backend: the conclusion holds for every history whose renames are [Ranked.rsafe]: whenever a
+    Trename/Trenameat passes the server's guards and the backend lets it happen, none of the fidRefs
+    registered under the moved name is the target directory's fidRef or one of its ancestors (parent links).
+    This is what assumption B2 has to deliver; it is stated on the server state just before the request
+    because connecting the backend's notion of "below" with the server's tree IS path coherence
+    (C08_coherent), which is proved for PathFS only.
+    (2) PathFS (C05_B2_pathfs, C05_disconnect_pathfs): [rsafe] is discharged from the backend's own check
+    (CoherentRenFs.b2_paths: RenameAt is refused when source path ++ [old] is a prefix of the target path),
+    pathB's coherence invariant and C08_tree_inv; no hypothesis is left except "no panic flagged".
+    (3) C05_disconnect_refuted: against a backend without the B2 check the conclusion is false. *)
+Theorem C05_disconnect_rsafe : forall B bstep ops (b : B) cs,
+  rsafe_history B bstep ops (init_state B b) ->
+  let s0 := snd (run B bstep ops (init_state B b)) in
+  let s := snd (run B bstep (map OStop cs) s0) in
+  (forall k, In k (fkeys B s0) -> In (fst k) cs) ->
+  s_fids B s = [] /\
+  (s_panic B s = false -> forall h, h < s_nexth B s -> close_count h (s_log B s) = 1).
+Proof. exact disconnect_rsafe. Qed.
+Print Assumptions C05_disconnect_rsafe.
+
+Theorem C05_B2_pathfs : forall ops wga inj,
+  s_panic pfs (snd (run pfs pfs_step ops (init_state pfs (pfs_init wga inj)))) = false ->
+  rsafe_history pfs pfs_step ops (init_state pfs (pfs_init wga inj)).
+Proof. exact rsafe_history_pfs. Qed.
+Print Assumptions C05_B2_pathfs.
+
+Theorem C05_disconnect_pathfs : forall ops wga inj cs,
+  let s0 := snd (run pfs pfs_step ops (init_state pfs (pfs_init wga inj))) in
+  let s := snd (run pfs pfs_step (map OStop cs) s0) in
+  (forall k, In k (fkeys pfs s0) -> In (fst k) cs) ->
+  s_fids pfs s = [] /\
+  (s_panic pfs s = false -> forall h, h < s_nexth pfs s -> close_count h (s_log pfs s) = 1).
+Proof. exact disconnect_pfs. Qed.
+Print Assumptions C05_disconnect_pathfs.
+
+Theorem C05_disconnect_refuted :
+  let s0 := snd (run unit yes_step cyc_ops (init_state unit tt)) in
+  let s := snd (run unit yes_step (map OStop [0]) s0) in
+  (forall k, In k (fkeys unit s0) -> In (fst k) [0]) /\ s_fids unit s = [] /\ s_panic unit s = false /\
+  s_nexth unit s = 3 /\ close_count 1 (s_log unit s) = 0 /\ close_count 2 (s_log unit s) = 0 /\
+  map (fun x => (fr_refs x, fr_parent x)) (s_refs unit s) = [(0%Z, None); (1%Z, Some 2); (1%Z, Some 1)] /\
+  ~ ranked unit s.
+Proof. exact disconnect_refuted. Qed.
+Print Assumptions C05_disconnect_refuted.
 
 Theorem C05_ordered_ranked : forall B bstep ops (b : B),
   let s := snd (run B bstep ops (init_state B b)) in ordered B s -> ranked B s.
